@@ -74,6 +74,8 @@ def run_cases(binary, lines, tmp, tag, extra_args=(), timeout=900, max_restarts=
                 done = True
             elif r.get("t") == "stuck":
                 stuck = r["i"]
+            elif r.get("t") == "viol":
+                events.append(dict(kind="harness-viol", index=(r.get("detail") or {}).get("index", -1), rec=r, rc=0, reports=[], stderr=""))
         if done and rr.rc == 0 and not rr.san_reports:
             break
         culprit = stuck if stuck is not None else last + 1
@@ -151,7 +153,11 @@ def handle_events(s, prop, events, lines, describe, rerun=None):
         k = ev["index"]
         line = lines[k] if 0 <= k < len(lines) else ""
         det = dict(case=line[:20000], index=k, stderr=ev["stderr"])
-        if ev["kind"] == "san":
+        if ev["kind"] == "harness-viol":
+            r = ev["rec"]
+            d = r.get("detail") if isinstance(r.get("detail"), dict) else dict(detail=r.get("detail"))
+            s.viol(r.get("key", "?"), r.get("what", "") + f" ({describe(k)})", dict(d, case=line[:20000]))
+        elif ev["kind"] == "san":
             for rep in ev["reports"]:
                 s.d["san"] += 1
                 s.viol(f"{prop}:san:{rep['key']}", f"sanitizer report {rep['key']} on a {describe(k)} case",
